@@ -207,6 +207,9 @@ def build():
     plan.import_targets(p6, lambda c: c.qual in ("model:DataLists.lookup_key", "model:DataLists.lookup_value", "model:_NumbersModel.table_string"))
     p11 = C11.build()
     plan.import_targets(p11, lambda c: c.qual == "document:Table._validate_cell_coords")
+    from contracts import C12
+    p12 = C12.build()  # Table.write: exactly the addressed cell is replaced by the cell made from the value
+    plan.import_targets(p12, lambda c: c.qual == "document:Table.write")
     from contracts import C07
     p7 = C07.build()  # "tile/row-info rebuild on save": every row is stored exactly once, in its own tile, with its own offsets
     plan.import_targets(p7, lambda c: c.qual in ("model:_NumbersModel.recalculate_table_data", "model:_NumbersModel.recalculate_row_info"))
